@@ -104,6 +104,19 @@ func runC01(r *Run) {
 		}
 		check(evalCase{src, g.useFns})
 	}
+	// programs that may be ill-typed: whatever the checker accepts must still evaluate to its inferred type
+	for i := 0; i < n/3; i++ {
+		g := &progGen{r: r, vars: vars, fns: stdFns, useFns: r.Rng.Intn(2) == 0}
+		var src string
+		if i%2 == 0 {
+			src = g.sharedVarProg(r.Rng.Intn(4) != 0)
+		} else {
+			g.poison = 1
+			src = g.Gen(g.randType(2), 1+r.Rng.Intn(3))
+		}
+		r.Count("prog:possibly-ill-typed")
+		check(evalCase{src, g.useFns})
+	}
 }
 
 var quietRun *Run
